@@ -172,6 +172,7 @@ pub fn c04(tier: Tier) -> i32 {
     let mut report = Report::new("C04", tier, "model_checking");
     report.assume("LMDB/heed, roaring, rayon; a margin is judged only when its sign is certain under any f32 summation order");
     crate::props::run_hist_runs(&mut report, "C04", &c04_runs(tier));
+    c04_bulk(&mut report, tier);
     // vacuity guard: every run must have judged planes (a run whose splits are all degenerate decides nothing)
     let vacuous: Vec<String> = report.coverage.get("runs").and_then(|r| r.as_array()).map(|runs| {
         runs.iter().filter(|r| r["counters"]["planes_judged"].as_u64().unwrap_or(0) == 0 && !r["run"].as_str().unwrap_or("").contains("wide")).map(|r| r["run"].as_str().unwrap_or("").to_string()).collect()
@@ -181,6 +182,129 @@ pub fn c04(tier: Tier) -> i32 {
     }
     report.cov("oracle", "for every built state, every tree, every split, every stored item below it: margin recomputed in f64 from the decoded normal and leaf; a non-degenerate plane with a certain margin must have the item on the side of the margin's sign; an item separated by such planes only in some tree must be returned by nns(n).search_k(1).oversampling(1).by_item(id)");
     report.finish()
+}
+
+/// The routing clauses on datasets the small universes cannot produce: nodes of 20 and more
+/// items whose split attempts are all unbalanced (a cloud far from the origin: planes through the
+/// origin cannot cut it evenly, so the retry loop of the split runs to its end), followed by an
+/// incremental round; and coordinates at the end of the f32 range whose margins overflow.
+fn c04_bulk(report: &mut Report, tier: Tier) {
+    use crate::common::{arroy_db, bits_of, catch, floats_of, Scratch, Violation};
+    use crate::layout::decode_index;
+    use std::collections::BTreeMap;
+    let mut lcg: u64 = 0x2545_F491_4F6C_DD1D ^ crate::common::verif_seed();
+    let mut unif = move || {
+        lcg = lcg.wrapping_mul(6364136223846793005).wrapping_add(1442695040888963407);
+        ((lcg >> 40) as f64) / ((1u64 << 24) as f64)
+    };
+    // sum of 4 uniforms, centred: roughly bell-shaped, unit-ish variance
+    let mut bell = move || (unif() + unif() + unif() + unif() - 2.0) * 1.7;
+    let mut datasets: Vec<(String, Metric, usize, Vec<Vec<f32>>, Vec<Vec<f32>>)> = Vec::new();
+    let metrics: Vec<Metric> = if tier == Tier::Quick { vec![Metric::Euclidean, Metric::Cosine] } else { vec![Metric::Euclidean, Metric::Manhattan, Metric::Cosine, Metric::DotProduct] };
+    for m in metrics {
+        for (d, n, off) in [(8usize, 300usize, 7.0f64), (3, 120, 12.0)] {
+            let first: Vec<Vec<f32>> = (0..n).map(|_| (0..d).map(|_| (off + bell()) as f32).collect()).collect();
+            let second: Vec<Vec<f32>> = (0..n / 3).map(|_| (0..d).map(|_| (off + bell()) as f32).collect()).collect();
+            datasets.push((format!("off-centre-cloud-{}-d{d}-n{n}", m.short()), m, d, first, second));
+        }
+    }
+    // finite coordinates around 0.9 x f32::MAX, all of one sign per vector: normal . vector overflows to +-inf
+    {
+        let d = 4usize;
+        let big = f32::MAX * 0.9;
+        let mut first: Vec<Vec<f32>> = (0..60).map(|i| (0..d).map(|j| (((i * 7 + j * 3) % 11) as f32 - 5.0) + if j == 0 { 0.5 } else { 0.0 }).collect()).collect();
+        // few and opposite: several enormous vectors in one node overflow the centroids of the split
+        // construction itself (inf / inf: a NaN normal, against which no margin is defined)
+        for k in 0..2 {
+            let sign = if k % 2 == 0 { 1.0 } else { -1.0 };
+            first.push((0..d).map(|j| sign * big * (1.0 - 0.01 * ((k + j) % 5) as f32)).collect());
+        }
+        let second: Vec<Vec<f32>> = (0..2).map(|k| (0..d).map(|j| if k % 2 == 0 { -1.0 } else { 1.0 } * big * (1.0 - 0.013 * ((k + 2 * j) % 4) as f32)).collect()).collect();
+        datasets.push(("huge-one-sign-euclidean-d4".to_string(), Metric::Euclidean, d, first, second));
+    }
+    let mut judged_total = 0u64;
+    let mut lookups_total = 0u64;
+    let mut builds = 0u64;
+    crate::explore::in_single_thread_pool(|| {
+        for (label, metric, d, first, second) in &datasets {
+            for n_trees in [1usize, 3] {
+                let s = Scratch::with_map_size("c04b", 1 << 28);
+                let r = catch(|| -> Result<(u64, u64), (String, String)> {
+                    crate::with_metric!(*metric, D => {
+                        let mut judged = 0u64;
+                        let mut lookups = 0u64;
+                        let mut wtxn = s.env.write_txn().unwrap();
+                        let w = arroy::Writer::<D>::new(arroy_db::<D>(s.db), 0, *d);
+                        let mut model: BTreeMap<u32, Vec<u32>> = BTreeMap::new();
+                        for (round, items) in [first, second].into_iter().enumerate() {
+                            for (i, v) in items.iter().enumerate() {
+                                let id = (round * 10_000 + i) as u32;
+                                w.add_item(&mut wtxn, id, v).map_err(|e| ("R/bulk-add".to_string(), e.to_string()))?;
+                                model.insert(id, bits_of(v));
+                            }
+                            if round == 1 {
+                                // overwrite and delete a few of the first round
+                                for i in (0..first.len()).step_by(17) {
+                                    w.del_item(&mut wtxn, i as u32).map_err(|e| ("R/bulk-del".to_string(), e.to_string()))?;
+                                    model.remove(&(i as u32));
+                                }
+                            }
+                            let mut rng = <rand::rngs::StdRng as rand::SeedableRng>::seed_from_u64(crate::common::verif_seed() + round as u64);
+                            w.builder(&mut rng).n_trees(n_trees).build(&mut wtxn).map_err(|e| ("R/bulk-build".to_string(), e.to_string()))?;
+                            let kv = s.dump(&wtxn);
+                            let ix = decode_index(&kv, 0, *metric, *d).map_err(|e| ("F/undecodable".to_string(), e))?;
+                            crate::oracle::structure(&ix, &model.keys().copied().collect(), *metric, *d)?;
+                            let (stats, clean) = crate::oracle::routing(&ix, *metric)?;
+                            judged += stats.planes_judged;
+                            let reader = arroy::Reader::<D>::open(&wtxn, 0, arroy_db::<D>(s.db)).map_err(|e| ("R/open-failed".to_string(), e.to_string()))?;
+                            let n = model.len();
+                            if std::env::var("VERIF_DEBUG_C04").is_ok() {
+                                let huge: Vec<u32> = model.iter().filter(|(_, v)| v.iter().any(|b| f32::from_bits(*b).abs() > 1e30)).map(|(id, _)| *id).collect();
+                                eprintln!("{label} trees={n_trees} round={round}: huge items {huge:?}, clean among them {:?}, planes judged {} degenerate {} uncertain {}", huge.iter().filter(|i| clean.contains(i)).collect::<Vec<_>>(), stats.planes_judged, stats.planes_degenerate, stats.margins_zero_or_uncertain);
+                            }
+                            for id in clean.iter() {
+                                let res = crate::hist::query::<D>(&reader, &wtxn, Some(*id), None, n, Some(1), Some(1), None).map_err(|e| ("R/query-failed".to_string(), e))?.unwrap_or_default();
+                                lookups += 1;
+                                if !res.iter().any(|(i, _)| i == id) {
+                                    return Err(("R/self-lookup-missed".into(), format!("round {round}: item {id} is separated by non-degenerate planes in some tree but nns({n}).search_k(1).by_item({id}) does not return it ({} results)", res.len())));
+                                }
+                                // and by its own vector
+                                let res = crate::hist::query::<D>(&reader, &wtxn, None, Some(&floats_of(&model[id])), n, Some(1), Some(1), None).map_err(|e| ("R/query-failed".to_string(), e))?.unwrap_or_default();
+                                lookups += 1;
+                                if !res.iter().any(|(i, _)| i == id) {
+                                    return Err(("R/self-lookup-missed".into(), format!("round {round}: item {id} is separated by non-degenerate planes in some tree but nns({n}).search_k(1).by_vector(its own vector) does not return it ({} results)", res.len())));
+                                }
+                            }
+                        }
+                        Ok((judged, lookups))
+                    })
+                });
+                builds += 2;
+                match r {
+                    Ok(Ok((j, l))) => {
+                        judged_total += j;
+                        lookups_total += l;
+                        if j == 0 {
+                            report.machinery_error(format!("vacuous bulk run {label} ({n_trees} trees): no plane judged"));
+                        }
+                    }
+                    Ok(Err((c, m))) => {
+                        report.add_violation(Violation::new(c, format!("{label}, {n_trees} trees: {m}")));
+                        return;
+                    }
+                    Err(p) => {
+                        report.add_violation(Violation::new(format!("R/bulk-panicked:{}", p.site()), format!("{label}, {n_trees} trees: {} {}", p.location, p.message)));
+                        return;
+                    }
+                }
+            }
+        }
+    });
+    report.cov_add("states", builds);
+    report.cov_add("transitions", builds);
+    report.cov_add("traces_validated_against_impl", builds);
+    report.cov("bulk_planes_judged", judged_total);
+    report.cov("bulk_self_lookups", lookups_total);
 }
 
 // ------------------------------------------------------------------------------------------
